@@ -32,13 +32,27 @@ class Stub:
         return self.a + self.b * (1 - q)
 
 
+def _scipy_uniform(*a, **k):
+    from scipy import stats
+    return stats.uniform(*a, **k)
+
+
 KEYS = {'auto': None, 's=a': 'a', 's=b': 'b', 's=x_1': 'x_1', 's=x_0': 'x_0', 'nonstr': 1.0}
 DISTS = {'r=0,2': (0, 2), 'r=-1,1': (-1.0, 1.0), 'i=3,2': Stub(3, 2), 'n=3/2': 1.5, 'n=2': 2, 'l=a': 'a', 'l=b': 'b',
          'l=x_0': 'x_0', 'l=x_1': 'x_1', 'o': [0.0],
          # fixed values of numpy scalar types (elements of arrays): numbers like any other; the model sees `n=<value>`
-         'n=7': np.int64(7), 'n=5/2': np.float32(2.5), 'n=1/4': np.float64(0.25)}
+         'n=7': np.int64(7), 'n=5/2': np.float32(2.5), 'n=1/4': np.float64(0.25),
+         # frozen scipy distributions whose arguments were passed positionally / half positionally (the model sees `i=<loc>,<scale>`)
+         'i=2,3': _scipy_uniform(2, 3), 'i=-4,8': _scipy_uniform(-4, scale=8)}
 SMALL_KEYS = ['auto', 's=a', 's=x_1', 'nonstr']
 SMALL_DISTS = ['r=0,2', 'n=3/2', 'l=a', 'l=x_1', 'l=x_0', 'o']
+
+
+def loc_scale(d):
+    """(loc, scale) of a frozen scipy distribution of the location-scale family, however the arguments were passed"""
+    args = list(getattr(d, 'args', ()))
+    kw = getattr(d, 'kwds', {})
+    return kw.get('loc', args[0] if len(args) > 0 else 0.0), kw.get('scale', args[1] if len(args) > 1 else 1.0)
 
 
 def to_frac(x):
@@ -61,8 +75,8 @@ def dist_repr(d):
         return 'fixed(%s)' % frac_str(d)
     if isinstance(d, Stub):
         return 'free(%s,%s)' % (frac_str(d.a), frac_str(d.b))
-    if hasattr(d, 'kwds') and 'loc' in d.kwds:
-        return 'free(%s,%s)' % (frac_str(d.kwds['loc']), frac_str(d.kwds['scale']))
+    if hasattr(d, 'kwds') and hasattr(d, 'isf'):
+        return 'free(%s,%s)' % tuple(frac_str(x) for x in loc_scale(d))
     return 'unknown(%r)' % (d,)
 
 
@@ -77,7 +91,8 @@ def is_free(d):
 def ppf(d, u):
     if isinstance(d, Stub):
         return Fraction(d.a) + Fraction(d.b) * u
-    return Fraction(d.kwds['loc']) + Fraction(d.kwds['scale']) * u
+    loc, scale = loc_scale(d)
+    return Fraction(loc) + Fraction(scale) * u
 
 
 def apply_word(word, interleave=False):
@@ -230,7 +245,7 @@ def words(chk, rng):
         for _ in range(L):
             if rng.random() < 0.6:
                 k = ['auto', 's=a', 's=b', 's=x_1', 's=x_0'][int(rng.integers(0, 5))]
-                d = ['r=0,2', 'r=-1,1', 'i=3,2', 'n=3/2', 'n=2', 'l=a', 'l=b', 'l=x_0', 'l=x_1', 'n=7', 'n=5/2', 'n=1/4'][int(rng.integers(0, 12))]
+                d = ['r=0,2', 'r=-1,1', 'i=3,2', 'n=3/2', 'n=2', 'l=a', 'l=b', 'l=x_0', 'l=x_1', 'n=7', 'n=5/2', 'n=1/4', 'i=2,3', 'i=-4,8'][int(rng.integers(0, 14))]
                 w.append(k + ':' + d)
             else:
                 w.append(full[int(rng.integers(0, len(full)))])
@@ -283,7 +298,7 @@ def run(chk):
     chk.extra['outcome_kinds'] = kinds
     chk.extra['distinct_final_states'] = len(distinct_states)
     chk.cov['rule'] = ('all declaration words of length <= %d over a %d-letter alphabet (key in {None,a,x_1,1.0} x dist in '
-                       '{(0,2),1.5,link a,link x_1,link x_0,[0.0]}), all words of length <= 2 over the 60-letter alphabet, '
+                       '{(0,2),1.5,link a,link x_1,link x_0,[0.0]}), all words of length <= 2 over the full alphabet (6 keys x 15 distributions incl. positional scipy uniforms), '
                        'plus random words of length 3-7 biased to valid declarations; non-trivial = distinct final state '
                        'containing a link, reached by a word with at least one rejected declaration'
                        % (chk.extra['exhaustive_depth'], len(chk.extra['exhaustive_alphabet'])))
